@@ -114,6 +114,11 @@ class OrphanedReturn(Exception):
     """A runnable returned a value without anyone to receive it"""
 
     def __init__(self, who, value):
-        super().__init__("no caller to receive %s from %s" % (value, who))
+        # the message is only built on demand: reporting the failure
+        # must not depend on ``who`` and ``value`` being printable
+        super().__init__()
         self.who = who
         self.value = value
+
+    def __str__(self):
+        return "no caller to receive %s from %s" % (self.value, self.who)
